@@ -54,15 +54,23 @@ def run_script(hist, sends):
     m = new_model()
     hist = [(h[0], h[1], (h[2] if len(h) > 2 else 0)) for h in hist]
 
+    # the reference owns the id model: ids come from a monotone counter and are never reused, also not by a reconfiguration
+    ref = {"live": list(range(INITIAL)), "next": INITIAL}
+
     def apply_ops(step):
         for op, arg, when in hist:
             if when == step:
                 if op == 0:
                     m.create_agent("A", None)
+                    ref["live"] = ref["live"] + [ref["next"]]
+                    ref["next"] += 1
                 elif op == 1:
                     m.delete_agent(arg)
+                    ref["live"] = [i for i in ref["live"] if i != arg]
                 else:
                     m.configure_agents([{"name": "A", "count": 2}])
+                    ref["live"] = [ref["next"], ref["next"] + 1]
+                    ref["next"] += 2
     live_at = []                                # live ids when step s distributes its events (concrete ints)
     crashed = None
     for s in range(NSTEPS):
@@ -70,7 +78,10 @@ def run_script(hist, sends):
             apply_ops(s)                        # population changes happen between steps, before the step's sends
         except Exception as ex:  # noqa
             return "history raised %r" % (ex,)
-        live_at.append([a.id for a in m.agents])
+        got_ids = [a.id for a in m.agents]
+        if got_ids != ref["live"]:
+            return "population ids before step %d are %r, expected %r (ids are never reused)" % (s, got_ids, ref["live"])
+        live_at.append(list(ref["live"]))
         for idx, (st, rid, dl) in enumerate(sends):
             if st == s:
                 name = "e%d" % idx
@@ -85,7 +96,7 @@ def run_script(hist, sends):
             break
     # no dictionaries keyed by symbolic values here: hashing would make CrossHair realise them
     while len(live_at) < NSTEPS:
-        live_at.append([a.id for a in m.agents])
+        live_at.append(list(ref["live"]))
     ever = []
     for l in live_at:
         for i in l:
